@@ -402,6 +402,14 @@ def guard_forms(pa: PathAnalysis, site: Site, preserve: str = "preserve") -> Tup
         if tok:
             goals = [Lit(f"in(name({tok}), {ptok})", False), Lit(f"in({tok}, {ptok})", False)]
             bare = any(entails(w.facts, g) for g in goals)
+            if not bare:
+                # `x not in (preserve | other)`: not a member of a union is not a member of either part
+                for f in w.facts:
+                    if f[0] == "lit" and not f[2] and (f[1].startswith(f"in(name({tok}), ") or f[1].startswith(f"in({tok}, ")):
+                        coll = f[1].split(", ", 1)[1][:-1]
+                        parts = [p_.strip() for p_ in coll.split(" | ")]
+                        if len(parts) > 1 and ptok in parts and "(" not in coll and "&" not in coll and "-" not in coll:
+                            bare = True
             anyform = bare
             if not anyform:
                 for f in w.facts:
